@@ -54,6 +54,11 @@ class RawX12File(object):
         self.ele_term = line[3]
         self.subele_term = line[-2]
         self.repetition_term = line[82] if self.icvn == '00501' else None
+        for term in (self.seg_term, self.ele_term, self.subele_term):
+            if term.isalnum():
+                # a letter or a digit can not delimit anything ('S' would split 'ISA' itself)
+                err_str = "ISA declares the delimiter '%s', a letter or a digit" % term
+                raise pyx12.errors.X12Error(err_str)
         self.buffer = line
         self.buffer += self.fd.read(DEFAULT_BUFSIZE)
 
